@@ -213,7 +213,8 @@ class Check:
     rule = (
         "Hypothesis: a generated method set (hierarchy, <=5 methods, 1-2 positions, keyword-only, priorities, three host "
         "kinds) in which one parameter annotation is respelled (union order / typing.Union / | / tuple / Optional forms, "
-        "missing / Any / object, Annotated, string, typing.List, Literal value order); both programs run 4-10 corpus "
+        "missing / Any / object, Annotated, string, typing.List, Literal value order; unions with same-named members, "
+        "Any / bare type members; 1 case in 4 respells a second registration of the same method); both programs run 4-10 corpus "
         "calls and must give identical outcome vectors. Non-trivial = the respelled method wins for some probed call and "
         "not for another; distinct by case hash."
     )
